@@ -2,6 +2,7 @@ package main
 
 import (
 	"fmt"
+	"go/token"
 	"strings"
 
 	"golang.org/x/tools/go/callgraph"
@@ -440,6 +441,206 @@ func ruleFinalize(c *Ctx) *RuleResult {
 	}
 	checkPool("(*ClonePool).ExtractAllMarkedFinalize", fin, true)
 	checkPool("(*ClonePool).ExtractAllMarkedRelease", rel, false)
+	// (h) PopContext releases the child's pool before anything that can terminate a
+	// context: charging the child's usage to the parent, or refreshing the parent's
+	// elapsed time, may kill the parent — a panic out of PopContext — and whatever has not
+	// been released by then is lost with the child's pool
+	if pc := p.Func("runtime", "(*runtimeContextManager).PopContext"); pc != nil && p.Config.Tags != "noquotas" {
+		term := p.Func("runtime", "(*runtimeContextManager).TerminateContext")
+		var rel ssa.Instruction
+		forEachInstr(pc, func(ins ssa.Instruction) {
+			if call, ok := ins.(ssa.CallInstruction); ok && calleeNamed(call, "releaseResources") {
+				rel = ins
+			}
+		})
+		if term == nil || rel == nil {
+			r.broken("anchor unresolved: PopContext's releaseResources call / TerminateContext")
+		} else {
+			reachesTerm := map[*ssa.Function]bool{}
+			var reach func(f *ssa.Function, depth int) bool
+			reach = func(f *ssa.Function, depth int) bool {
+				if f == term {
+					return true
+				}
+				if v, ok := reachesTerm[f]; ok {
+					return v
+				}
+				reachesTerm[f] = false
+				if depth > 6 || f.Blocks == nil {
+					return false
+				}
+				res := false
+				forEachInstr(f, func(ins ssa.Instruction) {
+					if call, ok := ins.(ssa.CallInstruction); ok {
+						if cal := call.Common().StaticCallee(); cal != nil && p.InModule(cal) && reach(cal, depth+1) {
+							res = true
+						}
+					}
+				})
+				reachesTerm[f] = res
+				return res
+			}
+			early := ""
+			forEachInstr(pc, func(ins ssa.Instruction) {
+				call, ok := ins.(ssa.CallInstruction)
+				if !ok || ins == rel {
+					return
+				}
+				cal := call.Common().StaticCallee()
+				if cal == nil || !p.InModule(cal) || !reach(cal, 0) {
+					return
+				}
+				if instrDominates(ins, rel) || (ins.Block() != rel.Block() && blockReaches(ins.Block(), rel.Block())) {
+					early = fnKey(cal) + " at " + p.InstrPos(ins)
+				}
+			})
+			if early == "" {
+				r.ok("(h) PopContext releases the child's resources before any call that can terminate a context")
+			} else {
+				r.fail("popcontext-release-after-terminating-call", p.InstrPos(rel), fmt.Sprintf("PopContext calls %s, which can terminate the parent context (a panic out of PopContext), before it has released the resources of the child's pool: when that happens — e.g. the outer time limit expires while an inner limited context is being left — the child's userdata is never released, not even when the runtime closes", early))
+			}
+		}
+	}
+	// (i) every hard limit gives the context a pool of its own: finalisers of values
+	// created under a limit run inside that context and are charged to it, and a killed
+	// context releases its resources when it is left. For each of the three limits some
+	// test `ctx.HardLimits.X > 0` in PushContext has a true edge from which the store
+	// gcPolicy = ShareGCPolicy cannot be reached (boolean locals set on the way are tracked)
+	if push := p.Func("runtime", "(*runtimeContextManager).PushContext"); push != nil && p.Config.Tags != "noquotas" {
+		gcC := constsOfType(p, "runtime", "GCPolicy")
+		shareV, okShare := gcC["ShareGCPolicy"]
+		var shareBlk *ssa.BasicBlock
+		forEachInstr(push, func(ins ssa.Instruction) {
+			st, ok := ins.(*ssa.Store)
+			if !ok {
+				return
+			}
+			fa, ok := st.Addr.(*ssa.FieldAddr)
+			if !ok {
+				return
+			}
+			if _, _, fld := fieldOfAddr(fa); fld != "gcPolicy" {
+				return
+			}
+			if k, isK := constInt(st.Val); isK && okShare && k == shareV {
+				shareBlk = st.Block()
+			}
+		})
+		if shareBlk == nil {
+			r.broken("anchor unresolved: PushContext's store gcPolicy = ShareGCPolicy")
+		} else {
+			limitOf := func(cond ssa.Value) string {
+				b, ok := cond.(*ssa.BinOp)
+				if !ok || b.Op != token.GTR {
+					return ""
+				}
+				if k, isK := constInt(b.Y); !isK || k != 0 {
+					return ""
+				}
+				name, hard := "", false
+				for v := range backSlice(b.X, false) {
+					if fa, ok := v.(*ssa.FieldAddr); ok {
+						_, tn, fld := fieldOfAddr(fa)
+						if fld == "HardLimits" {
+							hard = true
+						}
+						if tn == "RuntimeResources" {
+							name = fld
+						}
+					}
+				}
+				if hard {
+					return name
+				}
+				return ""
+			}
+			// path-sensitive reachability with known-true booleans
+			var canReach func(b, pred *ssa.BasicBlock, known map[ssa.Value]bool, depth int, seen map[string]bool) bool
+			canReach = func(b, pred *ssa.BasicBlock, known map[ssa.Value]bool, depth int, seen map[string]bool) bool {
+				if b == shareBlk {
+					return true
+				}
+				if depth > 60 {
+					return true // give up conservatively
+				}
+				key := fmt.Sprintf("%d/%d/%d", b.Index, len(known), func() int {
+					if pred == nil {
+						return -1
+					}
+					return pred.Index
+				}())
+				if seen[key] {
+					return false
+				}
+				seen[key] = true
+				k2 := map[ssa.Value]bool{}
+				for v := range known {
+					k2[v] = true
+				}
+				// phis of this block, given the edge we came in on
+				if pred != nil {
+					for _, ins := range b.Instrs {
+						phi, ok := ins.(*ssa.Phi)
+						if !ok {
+							break
+						}
+						for i, pb := range b.Preds {
+							if pb != pred {
+								continue
+							}
+							e := phi.Edges[i]
+							if kc, isK := e.(*ssa.Const); isK {
+								if v, ok := constInt(kc); ok && v != 0 {
+									k2[phi] = true
+								}
+							} else if k2[e] {
+								k2[phi] = true
+							}
+						}
+					}
+				}
+				last := b.Instrs[len(b.Instrs)-1]
+				if iff, ok := last.(*ssa.If); ok {
+					if k2[iff.Cond] {
+						return canReach(b.Succs[0], b, k2, depth+1, seen)
+					}
+					kt := map[ssa.Value]bool{}
+					for v := range k2 {
+						kt[v] = true
+					}
+					kt[iff.Cond] = true
+					return canReach(b.Succs[0], b, kt, depth+1, seen) || canReach(b.Succs[1], b, k2, depth+1, seen)
+				}
+				for _, sc := range b.Succs {
+					if canReach(sc, b, k2, depth+1, seen) {
+						return true
+					}
+				}
+				return false
+			}
+			for _, lim := range []string{"Cpu", "Memory", "Millis"} {
+				nTests, isolated := 0, false
+				for _, b := range push.Blocks {
+					iff, ok := b.Instrs[len(b.Instrs)-1].(*ssa.If)
+					if !ok || limitOf(iff.Cond) != lim {
+						continue
+					}
+					nTests++
+					if !canReach(b.Succs[0], b, map[ssa.Value]bool{iff.Cond: true}, 0, map[string]bool{}) {
+						isolated = true
+					}
+				}
+				switch {
+				case nTests == 0:
+					r.broken("PushContext has no test of ctx.HardLimits.%s > 0 (anchor moved?)", lim)
+				case isolated:
+					r.ok("(i) a hard " + lim + " limit gives the context its own pool")
+				default:
+					r.fail("limit-does-not-isolate-pool:"+lim, p.Pos(push.Pos()), fmt.Sprintf("in PushContext a context with a hard %s limit can still be given its parent's pool (gcPolicy = ShareGCPolicy is reachable after every test of ctx.HardLimits.%s > 0): finalisers of values created in it then run later, outside it, unlimited and uncharged, and a killed context no longer releases its resources when it is left", lim, lim))
+				}
+			}
+		}
+	}
 	// (g) marking happens where the metatable is set: (*Runtime).SetRawMetatable is
 	// the only place that gives a table or userdata a non-nil metatable and it marks
 	// the value for finalisation/release; nothing Lua can call sets one around it
